@@ -110,3 +110,33 @@ Definition f19_labels : list (option src) :=
   [Some (SApp 0 [SPrimT PU8; SVec (SPrimT PU8)]); Some (SPrimT PU8); Some (SVec (SPrimT PU8)); Some (SApp 1 [SPrimT PU8]);
    Some (SApp 0 [SPrimT PU16; SVec (SPrimT PU16)]); Some (SPrimT PU16); Some (SVec (SPrimT PU16)); Some (SApp 1 [SPrimT PU16])].
 Definition f19_s : settings := mk_settings "root" false dreg_empty [] None None None true AStd.
+
+(** ** f19b: a second way [types_equal] is incomplete on coincidence-free instantiations, without
+    nested definitions: the registry entry of [BTreeMap<K, V>] has a hidden field of type
+    [Vec<(K, V)>], which is no component of the source field type.
+    [a::D<T, U> { m: BTreeMap<u8, T>, w: Vec<U> }] at [(u16, Vec<(u8, u16)>)] and [(bool, Vec<u32>)]:
+    while comparing the two maps the id of [Vec<(u8, u16)>] enters the left visited set; at
+    [w: Vec<U>] the element ids are (argument U on the left = that id: seen) and ([Vec<u32>]: not
+    seen), and the both-or-neither-visited rule answers "different" *)
+Definition f19b_defs : list sdef :=
+  [mk_sdef ["a"; "D"] [("T", false); ("U", false)]
+     (SBStruct [mk_sfield (Some "m") (SBTreeMap (SPrimT PU8) (SParam 0)) false true;
+                mk_sfield (Some "w") (SVec (SParam 1)) false true])].
+Definition f19b_d (t u m w : N) : ty :=
+  mk_ty ["a"; "D"] [mk_tparam "T" (Some t); mk_tparam "U" (Some u)]
+        (TDComposite [pe_fld "m" m "BTreeMap<u8, T>"; pe_fld "w" w "Vec<U>"]) [].
+Definition pe_seq (e : N) : ty := mk_ty [] [] (TDSequence e) [].
+Definition f19b_reg : registry :=
+  [(0, f19b_d 1 2 3 6); (1, pe_prim PU16); (2, pe_seq 4); (3, ex6_map 5 1 2); (4, mk_ty [] [] (TDTuple [5; 1]) []);
+   (5, pe_prim PU8); (6, pe_seq 2);
+   (7, f19b_d 8 9 10 13); (8, pe_prim PBool); (9, pe_seq 14); (10, ex6_map 5 8 11); (11, pe_seq 12);
+   (12, mk_ty [] [] (TDTuple [5; 8]) []); (13, pe_seq 9); (14, pe_prim PU32)].
+Definition f19b_args1 : list src := [SPrimT PU16; SVec (STup [SPrimT PU8; SPrimT PU16])].
+Definition f19b_args2 : list src := [SPrimT PBool; SVec (SPrimT PU32)].
+Definition f19b_labels : list (option src) :=
+  [Some (SApp 0 f19b_args1); Some (SPrimT PU16); Some (SVec (STup [SPrimT PU8; SPrimT PU16]));
+   Some (SBTreeMap (SPrimT PU8) (SPrimT PU16)); Some (STup [SPrimT PU8; SPrimT PU16]); Some (SPrimT PU8);
+   Some (SVec (SVec (STup [SPrimT PU8; SPrimT PU16])));
+   Some (SApp 0 f19b_args2); Some (SPrimT PBool); Some (SVec (SPrimT PU32));
+   Some (SBTreeMap (SPrimT PU8) (SPrimT PBool)); Some (SVec (STup [SPrimT PU8; SPrimT PBool]));
+   Some (STup [SPrimT PU8; SPrimT PBool]); Some (SVec (SVec (SPrimT PU32))); Some (SPrimT PU32)].
